@@ -207,7 +207,7 @@ static void gen_c17(plan_t *p, rng_t *r)
     }
     for (int i = 0; i < nops; i++) {
         size_t na, nb;
-        int mode = (int)rng_below(r, 11);
+        int mode = (int)rng_below(r, 12);
         op_t *o;
         if (i > 0 && rng_chance(r, 1, 4)) {
             /* related to the call before: one of its strings again with its word cut down, grown, or replaced by a real pre-release
@@ -233,6 +233,16 @@ static void gen_c17(plan_t *p, rng_t *r)
             } else if (pn + 8 < sizeof(pb)) snprintf(pb + pn, sizeof(pb) - pn, "%s", rng_chance(r, 1, 2) ? "beta1" : ".1");
             if (rng_chance(r, 1, 2)) { na = strlen(pa); memcpy(a, pa, na + 1); nb = strlen(pb); memcpy(b, pb, nb + 1); }
             else { na = strlen(pb); memcpy(a, pb, na + 1); nb = strlen(pa); memcpy(b, pa, nb + 1); }
+        } else
+        if (mode == 11) {
+            /* numeric components at the edges of 32 and 64 bits, and pairs that lie exactly 2^31 or 2^32 apart: the places where a difference of
+               two converted numbers stops saying which one is larger (the statement's antisymmetry is for all strings, these included) */
+            static const char *edge[] = { "0", "1", "2147483646", "2147483647", "2147483648", "2147483649", "4294967295", "4294967296", "4294967297", "6442450944",
+                                          "9223372036854775807", "9223372036854775808", "18446744073709551616", "3000000000", "1000000000", "02147483648" };
+            static const char *pfx[] = { "", "1.", "2.0.", "v", "1.0-" };
+            const char *px = pfx[rng_below(r, 5)], *sx = rng_chance(r, 1, 3) ? ".1" : rng_chance(r, 1, 2) ? "pre1" : "";
+            na = (size_t)snprintf(a, sizeof(a), "%s%s%s", px, edge[rng_below(r, 16)], sx);
+            nb = (size_t)snprintf(b, sizeof(b), "%s%s%s", px, edge[rng_below(r, 16)], rng_chance(r, 1, 4) ? "" : sx);
         } else
         if (mode == 10) {
             /* one string is the other plus punctuation, a word and a number, each optional */
